@@ -117,8 +117,9 @@ def cstep (c : Cfg) : CAct → Cfg × List Out
          | (q', .queued) => ({ c with q := q', pc := .idle }, [])
          | (q', .latched) => ({ c with q := q', pc := .idle, dropped := m :: c.dropped }, [])
          | (q', .overflow) =>
+           -- player.Disconnect is a no-op on an already closed client connection
            ({ c with q := q', pc := .idle, lost := m :: (c.q.queue.reverse ++ c.lost), disconnected := true },
-            [.disconnect]))
+            if c.disconnected then [] else [.disconnect]))
     | _ => (c, []))
   | .direct => (match c.pc with
     | .direct m t =>
@@ -166,6 +167,7 @@ structure Play where
   bphase : Nat → BPhase := fun _ => .vanilla     -- serverConn.phase()
   clientComplete : Bool := true                  -- player.phase().ConsideredComplete()
   spawned : Bool := false
+  joined : Nat → Bool := fun _ => false          -- serverConnection.completedJoin
   next : Nat := 0
   deliv : List (Nat × Msg) := []
   dropped : List Msg := []
@@ -189,6 +191,16 @@ def Play.drainTo (p : Play) (b : Nat) : Play × List Out :=
   ({ p with q := q', deliv := (ms.map fun m => (b, m)).reverse ++ p.deliv },
    ms.map (fun m => Out.msg b .buffer m.idx))
 
+/-- first join of a not-yet-complete (legacy Forge NOT_STARTED) client: OnFirstJoin completes the phase -/
+def Play.firstJoin (p : Play) : Play :=
+  if p.spawned then p else { p with spawned := true, clientComplete := true }
+
+/-- `completeJoin` (first time only for this serverConnection): UnknownBackendPhase becomes VanillaBackendPhase -/
+def Play.completeJoin (p : Play) (d : Nat) : Play :=
+  if p.joined d then p else
+    { p with joined := fun j => if j = d then true else p.joined j,
+             bphase := fun j => if j = d ∧ p.bphase d = .unknown then .vanilla else p.bphase j }
+
 def pstep (p : Play) : POp → Play × List Out
   | .msg len =>
     let m : Msg := ⟨p.next, len, p.cur⟩
@@ -205,19 +217,16 @@ def pstep (p : Play) : POp → Play × List Out
         | (q', .queued) => ({ p with q := q' }, [])
         | (q', .latched) => ({ p with q := q', dropped := m :: p.dropped }, [])
         | (q', .overflow) =>
-          ({ p with q := q', lost := m :: (p.q.queue.reverse ++ p.lost), disconnected := true }, [.disconnect])
+          ({ p with q := q', lost := m :: (p.q.queue.reverse ++ p.lost), disconnected := true },
+           if p.disconnected then [] else [.disconnect])
   | .flushQueued =>
     (match p.cur with
      | none => (p, [])
      | some s => if p.hasConn s then let (p', o) := p.drainTo s; (p', o ++ [.flush s]) else (p, []))
   | .join d =>
     if p.hasConn d then
-      -- first join of a not-yet-complete (legacy Forge NOT_STARTED) client: OnFirstJoin completes the phase
-      let p := if p.spawned then p else { p with spawned := true, clientComplete := true }
-      let (p', o) := p.drainTo d
-      -- completeJoin: UnknownBackendPhase becomes VanillaBackendPhase
-      let p' := { p' with bphase := fun j => if j = d ∧ p'.bphase d = .unknown then .vanilla else p'.bphase j }
-      (p', o ++ [.flush d])
+      let (p', o) := p.firstJoin.drainTo d
+      (p'.completeJoin d, o ++ [.flush d])
     else (p, [])
   | .deactivated =>
     ({ p with q := {}, lost := p.q.queue.reverse ++ p.lost }, [])
@@ -227,6 +236,10 @@ def pstep (p : Play) : POp → Play × List Out
   | .setInPlay b v => ({ p with inPlay := fun j => if j = b then v else p.inPlay j }, [])
   | .setBPhase b ph => ({ p with bphase := fun j => if j = b then ph else p.bphase j }, [])
   | .setClientComplete v => ({ p with clientComplete := v }, [])
+
+def prun (p : Play) : List POp → Play × List Out
+  | [] => (p, [])
+  | a :: as => let (p', o) := pstep p a; let (p'', o') := prun p' as; (p'', o ++ o')
 
 def pexec (p : Play) : List POp → Play
   | [] => p
